@@ -336,7 +336,7 @@ class ScipyKrylov(LinearSolver):
         bool
             True if relevance should be active.
         """
-        return True
+        return not self.options['assemble_jac']
 
     def preferred_sparse_format(self):
         """
